@@ -157,6 +157,9 @@ func (p Params[T]) Config(ctx context.Context, t *T, sources ...Source) (*Dials[
 		// don't have to worry about dropping anything most of
 		// the time.
 		cbch := make(chan userCallbackEvent, 64)
+		if c := verifCbCapacity(); c > 0 {
+			cbch = make(chan userCallbackEvent, c)
+		}
 		d.cbch = cbch
 		d.monDone = make(chan struct{})
 		cbmgr := callbackMgr[T]{
@@ -238,6 +241,7 @@ type watchArgs struct {
 // ReportNewValue reports a new value. Returns an error if the internal
 // reporting channel is full and the context expires/is-canceled.
 func (w *watchArgs) ReportNewValue(ctx context.Context, val reflect.Value) error {
+	verifPoint(ctx, "rep.send.pre", "op", "val")
 	select {
 	case <-ctx.Done():
 		return ctx.Err()
@@ -256,6 +260,7 @@ func (w *watchArgs) ReportNewValue(ctx context.Context, val reflect.Value) error
 func (w *watchArgs) BlockingReportNewValue(ctx context.Context, val reflect.Value) error {
 	installed := make(chan error, 1)
 	vu := valueUpdate{source: w.s, value: val, installed: installed}
+	verifPoint(ctx, "rep.send.pre", "op", "block")
 	select {
 	case <-ctx.Done():
 		return fmt.Errorf("context expired while attempting to submit new value: %w", ctx.Err())
@@ -263,6 +268,7 @@ func (w *watchArgs) BlockingReportNewValue(ctx context.Context, val reflect.Valu
 	}
 
 	// Submitted, now we wait for the new value to be handled.
+	verifPoint(ctx, "rep.await.pre")
 	select {
 	case err := <-installed:
 		if err != nil {
@@ -277,6 +283,7 @@ func (w *watchArgs) BlockingReportNewValue(ctx context.Context, val reflect.Valu
 // Done indicates that this watcher has stopped and will not send any
 // more updates.
 func (w *watchArgs) Done(ctx context.Context) {
+	verifPoint(ctx, "rep.send.pre", "op", "done")
 	select {
 	case <-ctx.Done():
 	case w.c <- &watcherDone{source: w.s}:
@@ -287,6 +294,7 @@ func (w *watchArgs) Done(ctx context.Context) {
 // the internal reporting channel is full and the context
 // expires/is-canceled.
 func (w *watchArgs) ReportError(ctx context.Context, err error) error {
+	verifPoint(ctx, "rep.send.pre", "op", "err")
 	select {
 	case <-ctx.Done():
 		return ctx.Err()
@@ -384,6 +392,7 @@ func (u *userCallbackUnregisterToken[T]) unregister(ctx context.Context) bool {
 	}
 
 	// Wait for the unregister "event" to be processed.
+	verifPoint(ctx, "api.await.pre")
 	select {
 	case <-ctx.Done():
 		return false
@@ -446,14 +455,17 @@ func (d *Dials[T]) updateSourceValue(
 		}
 	}
 	newInterface, stackErr := compose(t, sourceValues)
+	verifPoint(ctx, "mon.composed", "ok", stackErr == nil)
 	if stackErr != nil {
 		oldVal := d.View()
 		newVal, _ := newInterface.(*T)
 		d.submitEvent(ctx, &watchErrorEvent[T]{
 			err: stackErr, oldConfig: oldVal, newConfig: newVal,
 		})
+		verifPoint(ctx, "mon.rejected", "why", "stack")
 		if watchTab.installed != nil {
 			watchTab.installed <- stackErr
+			verifNote(ctx, "mon.replied", "err", true)
 		}
 		return nil
 	}
@@ -461,6 +473,7 @@ func (d *Dials[T]) updateSourceValue(
 	// Verify that the configuration is valid if a Verify() method is present.
 	if vf, ok := newInterface.(VerifiedConfig); ok && !skipVerify {
 		if vfErr := vf.Verify(); vfErr != nil {
+			verifPoint(ctx, "mon.verified", "ok", false)
 			oldVal := d.View()
 
 			newVal := newInterface.(*T)
@@ -469,29 +482,38 @@ func (d *Dials[T]) updateSourceValue(
 				err: vfErr, oldConfig: oldVal, newConfig: newVal,
 			})
 
+			verifPoint(ctx, "mon.rejected", "why", "verify")
 			if watchTab.installed != nil {
 				watchTab.installed <- vfErr
+				verifNote(ctx, "mon.replied", "err", true)
 			}
 			return nil
 		}
 	}
 
 	newVers := newInterface.(*T)
+	verifPoint(ctx, "mon.verified", "ok", true)
 
 	_, oldSerial := d.ViewVersion()
 
 	// We can do a blind-store here because this goroutine (monitor()) has
 	// exclusive ownership of writes to this atomic-value
 	d.value.Store(&versionedConfig[T]{serial: oldSerial.s + 1, cfg: newVers})
+	verifPoint(ctx, "mon.store", "serial", oldSerial.s+1, "cfg", newVers)
 	select {
 	case d.updatesChan <- newVers:
+		verifNote(ctx, "mon.events", "sent", true)
 	default:
+		verifNote(ctx, "mon.events", "sent", false)
 	}
+	verifPoint(ctx, "mon.notified")
 
 	// If there's an installed channel, poke it.
 	if watchTab.installed != nil {
 		watchTab.installed <- nil
+		verifNote(ctx, "mon.replied", "err", false)
 	}
+	verifPoint(ctx, "mon.reply")
 
 	return newVers
 }
@@ -525,6 +547,7 @@ func (d *Dials[T]) submitEventBlocking(ctx context.Context, ev userCallbackEvent
 	if d.cbch == nil {
 		return false
 	}
+	verifPoint(ctx, "api.submit.pre", "len", len(d.cbch), "cap", cap(d.cbch))
 	select {
 	case <-d.monDone:
 		// the monitor has exited; nothing will handle this event
@@ -537,6 +560,7 @@ func (d *Dials[T]) submitEventBlocking(ctx context.Context, ev userCallbackEvent
 	case <-d.monDone:
 		return false
 	case d.cbch <- ev:
+		verifNote(ctx, "api.submit.sent")
 		return true
 	}
 }
@@ -548,9 +572,12 @@ func (d *Dials[T]) submitEvent(ctx context.Context, ev userCallbackEvent) {
 	}
 	select {
 	case <-ctx.Done():
+		verifNote(ctx, "mon.submit", "res", "ctx", "ev", ev)
 	case d.cbch <- ev:
 		// never block we'd rather drop callbacks than deadlock the watchers
+		verifNote(ctx, "mon.submit", "res", "sent", "ev", ev)
 	default:
+		verifNote(ctx, "mon.submit", "res", "dropped", "ev", ev)
 	}
 }
 
@@ -602,12 +629,15 @@ func (d *Dials[T]) EnableVerification(ctx context.Context) (*T, CfgSerial[T], er
 	}
 	// must have capacity 1
 	resp := make(chan verifyEnableResp[T], 1)
+	verifPoint(ctx, "api.ctl.pre")
 	select {
 	case d.monCtl <- verifyEnable[T]{resp: resp}:
+		verifNote(ctx, "api.ctl.sent")
 	case <-ctx.Done():
 		return nil, CfgSerial[T]{}, fmt.Errorf("context expired while signaling: %w", ctx.Err())
 	}
 
+	verifPoint(ctx, "api.ctl.await")
 	select {
 	case r := <-resp:
 		return r.v, r.tok, r.err
@@ -647,13 +677,17 @@ func (d *Dials[T]) monitor(
 ) {
 	// signal the callback goroutine and any API callers that we're gone.
 	// (cbch is never closed, since API callers may still be sending on it)
+	defer verifNote(ctx, "mon.exited")
 	defer close(d.monDone)
+	defer verifPoint(ctx, "mon.exit")
 	skipVerify := d.params.DelayInitialVerification
 	for {
+		verifPoint(ctx, "mon.select", "skipVerify", skipVerify)
 		select {
 		case <-ctx.Done():
 			return
 		case v := <-monCtl:
+			verifPoint(ctx, "mon.recv", "kind", "ctl")
 			if !skipVerify {
 				// we're not in skipVerify mode, so just send back
 				// a success and continue
@@ -663,12 +697,15 @@ func (d *Dials[T]) monitor(
 					v:   cfg,
 					tok: serial,
 				}
+				verifNote(ctx, "mon.enable", "ok", true, "noop", true, "serial", serial.s)
 				continue
 			}
 			skipVerify = !d.monitorEnableVerify(v)
+			verifNote(ctx, "mon.enable", "ok", !skipVerify, "noop", false)
 		case watchTab := <-watcherChan:
 			switch v := watchTab.(type) {
 			case *valueUpdate:
+				verifPoint(ctx, "mon.recv", "kind", "val", "src", v.source, "blocking", v.installed != nil)
 				oldConfig, oldSerial := d.ViewVersion()
 				newConfig := d.updateSourceValue(ctx, t, skipVerify, sourceValues, v)
 				if newConfig != nil {
@@ -681,6 +718,7 @@ func (d *Dials[T]) monitor(
 					})
 				}
 			case *watchErrorReport:
+				verifPoint(ctx, "mon.recv", "kind", "err", "src", v.source)
 				if !(skipVerify && d.params.CallGlobalCallbacksAfterVerificationEnabled) {
 					d.submitEvent(ctx, &watchErrorEvent[T]{
 						err: fmt.Errorf("error reported by source of type %T: %w",
@@ -690,6 +728,7 @@ func (d *Dials[T]) monitor(
 					})
 				}
 			case *watcherDone:
+				verifPoint(ctx, "mon.recv", "kind", "done", "src", v.source)
 				if !d.markSourceDone(ctx, sourceValues, v) {
 					// if there are no watching sources, just exit.
 					return
